@@ -43,6 +43,11 @@ inductive Res where
   | outOfFuel
 deriving DecidableEq, Repr
 
+/-! The three loops are written over an abstract element access `get : Int → Option Int`
+(`self.getObs(id).timestamp`, `none` = `IndexError`) and the size `N`. The model as run uses Python's
+`pyGet` (negative indices wrap); `TV.C04.dichotomy_in_range` shows that the same result is obtained
+with a getter that fails on EVERY index outside `0..N-1`, i.e. no wrap and no `IndexError` ever occurs. -/
+
 /-- ```
 while delta != 0:
     id = id + delta
@@ -51,34 +56,34 @@ while delta != 0:
     if self.getObs(id).timestamp > timestamp: delta = -abs(delta >> 1)
     else:                                     delta = +abs(delta >> 1)
 ``` -/
-def searchLoop (T : List Int) (ts : Int) : Nat → Int → Int → Res
+def searchLoop (get : Int → Option Int) (N : Nat) (ts : Int) : Nat → Int → Int → Res
   | 0, _, _ => .outOfFuel
   | fuel + 1, id, delta =>
     if delta = 0 then .ok id
     else
       let id' := id + delta
-      if id' ≥ (T.length : Int) then searchLoop T ts fuel id' (-(pyAbs (delta >>> 1)))
+      if id' ≥ (N : Int) then searchLoop get N ts fuel id' (-(pyAbs (delta >>> 1)))
       else if id' = 0 then .ok id'
       else
-        match pyGet T id' with
+        match get id' with
         | none => .indexErr
         | some t =>
-          if t > ts then searchLoop T ts fuel id' (-(pyAbs (delta >>> 1)))
-          else searchLoop T ts fuel id' (pyAbs (delta >>> 1))
+          if t > ts then searchLoop get N ts fuel id' (-(pyAbs (delta >>> 1)))
+          else searchLoop get N ts fuel id' (pyAbs (delta >>> 1))
 
 /-- ```
 while self.getObs(id).timestamp > timestamp:
     if id == 0: break
     id -= 1
 ``` -/
-def fixLeft (T : List Int) (ts : Int) : Nat → Int → Res
+def fixLeft (get : Int → Option Int) (ts : Int) : Nat → Int → Res
   | 0, _ => .outOfFuel
   | fuel + 1, id =>
-    match pyGet T id with
+    match get id with
     | none => .indexErr
     | some t =>
       if t > ts then
-        if id = 0 then .ok id else fixLeft T ts fuel (id - 1)
+        if id = 0 then .ok id else fixLeft get ts fuel (id - 1)
       else .ok id
 
 /-- ```
@@ -86,14 +91,14 @@ while self.getObs(id).timestamp <= timestamp:
     id += 1
     if id == N: break
 ``` -/
-def fixRight (T : List Int) (ts : Int) : Nat → Int → Res
+def fixRight (get : Int → Option Int) (N : Nat) (ts : Int) : Nat → Int → Res
   | 0, _ => .outOfFuel
   | fuel + 1, id =>
-    match pyGet T id with
+    match get id with
     | none => .indexErr
     | some t =>
       if t ≤ ts then
-        if id + 1 = (T.length : Int) then .ok (id + 1) else fixRight T ts fuel (id + 1)
+        if id + 1 = (N : Int) then .ok (id + 1) else fixRight get N ts fuel (id + 1)
       else .ok id
 
 def Res.bind (r : Res) (f : Int → Res) : Res :=
@@ -102,15 +107,19 @@ def Res.bind (r : Res) (f : Int → Res) : Res :=
   | .indexErr => .indexErr
   | .outOfFuel => .outOfFuel
 
-/-- `__getInsertionIndex` on the timestamps `T`, with first step `2^j`. -/
-def insertionIndexFrom (j : Nat) (T : List Int) (ts : Int) : Res :=
+/-- `__getInsertionIndex` on the timestamps `T` read through `get`, with first step `2^j`. -/
+def insertionIndexWith (get : Int → Option Int) (j : Nat) (T : List Int) (ts : Int) : Res :=
   match T with
   | [] => .ok 0
   | [t0] => .ok (if t0 < ts then 1 else 0)
   | _ =>
     let N := T.length
-    ((searchLoop T ts (j + N + 3) 0 ((2 : Int) ^ j)).bind
-      (fixLeft T ts (N + 2))).bind (fixRight T ts (N + 2))
+    ((searchLoop get N ts (j + N + 3) 0 ((2 : Int) ^ j)).bind
+      (fixLeft get ts (N + 2))).bind (fixRight get N ts (N + 2))
+
+/-- the model as run: element access is Python's `L[i]`. -/
+def insertionIndexFrom (j : Nat) (T : List Int) (ts : Int) : Res :=
+  insertionIndexWith (pyGet T) j T ts
 
 /-- `(int)(math.log(N) / math.log(2))` — contract of the float computation: `⌊log₂ N⌋`
 (the theorems hold for every first step `2^j` with `2·2^j ≤ N`, hence also for an under-estimate). -/
